@@ -159,5 +159,11 @@ def run(ctx: core.Ctx) -> int:
                file="py/formak/cpp.py", func="ExtendedKalmanFilter.__init__", construct="sensor order cpp",
                msg=f"cpp orders sensors as {cs!r}, not by natural key order")
     genlayout.check_all(ctx, g)
+    # the Python side's own layout obligations (H, G, V, h, f are read back through them)
+    for _rid, _t in (("LAY-CALL", "execute() actuals == block arglist"), ("LAY-FLAT", "un-flatten by the compiled stride"), ("LAY-ZIP", "zip partners share a layout"),
+                     ("LAY-SLOT", "slot stores by enumeration index"), ("LAY-DICT", "from_dict into the matching layout"), ("ARR-MM", "products conform"),
+                     ("ARR-EW", "sums conform")):
+        ctx.rule(_rid, _t)
+    scenarios.transfer(sc.it, ctx, rules={"LAY-CALL", "LAY-FLAT", "LAY-ZIP", "LAY-SLOT", "LAY-DICT", "ARR-MM", "ARR-EW"}, files={PY})
     return core.finish(ctx, explanation="pairwise equality of E3 normal forms (Python interpreter vs clang AST of the rendered templates), "
                                         "shared role layouts, compile witnesses", **META)
